@@ -35,6 +35,7 @@ THEOREMS = [
     'Pyiga.Props.C07.getitem_bspline_model', 'Pyiga.Props.C07.tensor_product_model',
     'Pyiga.Props.C07.as_nurbs_model', 'Pyiga.Props.C07.nurbs_routes_agree', 'Pyiga.Props.C07.boundary_jacobian_columns', 'Pyiga.Props.C07.outer_model', 'Pyiga.Props.C07.boundary_model', 'Pyiga.Props.C07.translate_nurbs_model',
     'Pyiga.Props.C07.apply_matrix_model', 'Pyiga.Props.C07.scale_nurbs_model',
+    'Pyiga.Props.C07.outer_nurbs_model', 'Pyiga.Props.C07.tensor_nurbs_law', 'Pyiga.Props.C07.tensor_nurbs_model',
     'Pyiga.Props.C07.copy_boundary_pinned_lose_scalar', 'Pyiga.Props.C07.boundary_pinned_curve_asserts',
 ]
 MODULES = ['Pyiga.Model.Jet', 'Pyiga.Model.Geometry', 'Pyiga.Proofs.Jet', 'Pyiga.Proofs.Geometry', 'Pyiga.Proofs.GeoLists', 'Pyiga.Proofs.Arcs', 'Pyiga.Props.C07']
